@@ -131,7 +131,11 @@ Hello(i, x, c) ==
   /\ \/ IsReq(i) /\ sess[i].step = 1
      \/ IsRsp(i) /\ sess[i].step = 0
   /\ (c => Junk /\ x \notin {"ei", "low", "ex"})
-  /\ IF c \/ BadPoint(x) THEN Fail(i, "hello", EphSrc(x), c)
+  /\ IF c THEN Fail(i, "hello", EphSrc(x), c)
+     ELSE IF BadPoint(x)
+       \* the shared secret is computed (and refused) after a responder has sent its own hello
+       THEN /\ sess' = [sess EXCEPT ![i].fail = TRUE, ![i].hs = @ \/ IsRsp(i)]
+            /\ Out(i, "hello", EphSrc(x), c, "fail", "-")
      ELSE /\ sess' = [sess EXCEPT ![i].pe = x, ![i].step = @ + 2, ![i].hs = TRUE]
           /\ Out(i, "hello", EphSrc(x), c, "frame", "-")
 
